@@ -3,6 +3,9 @@ Soundness of the static shutter discipline (`discStmts`) for the tree interprete
 in x / y with the shutter open, whatever the loops do, and that holds recursively through `FARCALL`.
 -/
 import FemtoVerif.Spec.Tree
+import Mathlib.Tactic.Set
+import Mathlib.Tactic.Ring
+import Mathlib.Algebra.Order.Field.Rat
 
 namespace Femto.Ctl
 
@@ -364,5 +367,141 @@ mutual
       rw [execStmtsG, execStmts]
       simp only [execStmtG_flat s, execStmtsG_flat rest, List.map_append]
 end
+
+end Femto.Ctl
+
+namespace Femto.Ctl
+
+/-! ### the wall loop: `REPEAT n { FARCALL wall; $ZCURR = $ZCURR + dz; G1 Z$ZCURR }` raises the focus by `dz` per pass -/
+
+/-- the part of the controller state an x/y-only sub-program cannot touch -/
+structure Frame where
+  shutter : Bool
+  absMode : Bool
+  declared : List String
+  vals : List (String × Rat)
+  loaded : List String
+  bound : List (String × String)
+  z : Option Rat
+  rot : Bool
+  dwell : Rat
+
+def St.frame (σ : St) : Frame :=
+  ⟨σ.shutter, σ.absMode, σ.declared, σ.vals, σ.loaded, σ.bound, σ.pos.z, σ.rot, σ.dwell⟩
+
+theorem leafXY_frame (h : Handler) (hg1 : ∀ σ w, h σ (.g1 w) = stepFlat σ (.g1 w)) (hbl : ∀ σ, h σ .blank = stepFlat σ .blank)
+    (body : List Stmt) (hl : isLeafXY body = true) (σ : St) : (execStmtsG h body σ).1.frame = σ.frame := by
+  induction body generalizing σ with
+  | nil => simp [execStmtsG]
+  | cons s rest ih =>
+    rw [execStmtsG]
+    simp only [isLeafXY, List.all_cons, Bool.and_eq_true] at hl
+    have hrest : isLeafXY rest = true := by simpa [isLeafXY] using hl.2
+    rw [ih hrest]
+    cases s with
+    | atom i =>
+      rw [execStmtG]
+      cases i with
+      | g1 w =>
+        rw [hg1]
+        have hw := hl.1
+        simp only [Bool.and_eq_true, Option.isNone_iff_eq_none] at hw
+        obtain ⟨⟨hz, hzv⟩, hu⟩ := hw
+        simp [stepFlat, step, St.frame, zTarget, hz, hzv, axisTarget_none]
+      | blank => rw [hbl]; simp [stepFlat, step, St.frame]
+      | _ => simp at hl
+    | rep _ _ => simp at hl
+    | forr _ _ _ _ => simp at hl
+
+/-- the state in which a wall pass at depth `z` starts: absolute mode, the wall program loaded and bound to an x/y-only file
+of the tree, `$ZCURR = z`, the focus at `z` -/
+structure Ready (t : Tree) (p : String) (z : Rat) (σ : St) : Prop where
+  abs : σ.absMode = true
+  loaded : σ.loaded.contains (progKey p) = true
+  bound : ∃ id body, lookupBound σ.bound (progKey p) = some id ∧ t.find id = some body ∧ progKey id = progKey p ∧ isLeafXY body = true
+  val : lookupVar σ.vals "zcurr" = some z
+  posz : σ.pos.z = some z
+
+theorem lookup_setVal (vals : List (String × Rat)) (v : String) (q : Rat) : lookupVar (setVal vals v q) v = some q := by
+  simp [lookupVar, setVal]
+
+/-- one pass: the wall is traced at the current depth, then the variable and the focus go up by `dz` -/
+theorem wall_iteration (t : Tree) (f : Nat) (p : String) (dz z : Rat) (σ : St) (h : Ready t p z σ) :
+    Ready t p (z + dz) (execStmtsG (stepT t (f + 1)) (wallLoopBody p dz) σ).1 := by
+  obtain ⟨id, body, hb, hfind, hkey, hleaf⟩ := h.bound
+  -- the call
+  have hcall : (stepT t (f + 1) σ (.farcall p)).1.frame = σ.frame := by
+    simp only [stepT, h.loaded, if_true, hb, Option.bind_some, hfind, Option.map_some, hkey]
+    exact leafXY_frame _ (fun σ w => stepT_flat t f σ _ (by intro p hp; cases hp) (by intro k p hp; cases hp))
+      (fun σ => stepT_flat t f σ _ (by intro p hp; cases hp) (by intro k p hp; cases hp)) body hleaf σ
+  set σ1 := (stepT t (f + 1) σ (.farcall p)).1 with hσ1
+  have e1 : σ1.vals = σ.vals := congrArg Frame.vals hcall
+  have e2 : σ1.absMode = σ.absMode := congrArg Frame.absMode hcall
+  have e3 : σ1.loaded = σ.loaded := congrArg Frame.loaded hcall
+  have e4 : σ1.bound = σ.bound := congrArg Frame.bound hcall
+  have e5 : σ1.pos.z = σ.pos.z := congrArg Frame.z hcall
+  -- the increment
+  have hinc : stepT t (f + 1) σ1 (.incVar "zcurr" dz) = ({ σ1 with vals := setVal σ1.vals "zcurr" (z + dz) }, []) := by
+    rw [stepT_flat t (f + 1) σ1 _ (by intro p hp; cases hp) (by intro k p hp; cases hp)]
+    simp [stepFlat, step, e1, h.val]
+  set σ2 : St := { σ1 with vals := setVal σ1.vals "zcurr" (z + dz) } with hσ2
+  -- the move
+  have hmove : (stepT t (f + 1) σ2 (.g1 { zvar := some "ZCURR" })).1 =
+      { σ2 with pos := { x := σ2.pos.x, y := σ2.pos.y, z := some (z + dz) }, feed := σ2.feed } := by
+    rw [stepT_flat t (f + 1) σ2 _ (by intro p hp; cases hp) (by intro k p hp; cases hp)]
+    have hl : lower "ZCURR" = "zcurr" := by decide
+    have habs : σ2.absMode = true := by simp [hσ2, e2, h.abs]
+    simp [stepFlat, step, zTarget, hl, hσ2, lookup_setVal, axisTarget, axisTarget_none, e2, h.abs]
+  have hrun : (execStmtsG (stepT t (f + 1)) (wallLoopBody p dz) σ).1 =
+      { σ2 with pos := { x := σ2.pos.x, y := σ2.pos.y, z := some (z + dz) }, feed := σ2.feed } := by
+    simp only [wallLoopBody, execStmtsG, execStmtG]
+    rw [← hσ1, hinc, hmove]
+  rw [hrun]
+  exact {
+    abs := by simp [hσ2, e2, h.abs]
+    loaded := by have := h.loaded; simpa [hσ2, e3] using this
+    bound := ⟨id, body, by simp [hσ2, e4, hb], hfind, hkey, hleaf⟩
+    val := by simp [hσ2, lookup_setVal]
+    posz := rfl }
+
+theorem execRepG_wall (t : Tree) (f : Nat) (p : String) (dz : Rat) (n : Nat) (z : Rat) (σ : St) (h : Ready t p z σ) :
+    Ready t p (z + n * dz) (execRepG (stepT t (f + 1)) n (wallLoopBody p dz) σ).1 := by
+  induction n generalizing z σ with
+  | zero =>
+    have e : z + ((0 : Nat) : Rat) * dz = z := by push_cast; ring
+    rw [e]; simpa [execRepG] using h
+  | succ n ih =>
+    rw [execRepG]
+    have h1 := wall_iteration t f p dz z σ h
+    have h2 := ih (z + dz) _ h1
+    have e : z + dz + (n : Rat) * dz = z + ((n + 1 : Nat) : Rat) * dz := by push_cast; ring
+    rw [e] at h2
+    exact h2
+
+theorem ready_dwell (t : Tree) (f : Nat) (p : String) (z q : Rat) (σ : St) (h : Ready t p z σ) :
+    Ready t p z (stepT t (f + 1) σ (.dwell q)).1 := by
+  rw [stepT_flat t (f + 1) σ _ (by intro p hp; cases hp) (by intro k p hp; cases hp)]
+  simp only [stepFlat, step]
+  exact ⟨h.abs, h.loaded, h.bound, h.val, h.posz⟩
+
+theorem wall_iterationD (t : Tree) (f : Nat) (q : Rat) (p : String) (dz z : Rat) (σ : St) (h : Ready t p z σ) :
+    Ready t p (z + dz) (execStmtsG (stepT t (f + 1)) (wallLoopBodyD q p dz) σ).1 := by
+  have h0 := ready_dwell t f p z q σ h
+  have h1 := wall_iteration t f p dz z _ h0
+  simpa [wallLoopBodyD, execStmtsG, execStmtG] using h1
+
+theorem execRepG_wallD (t : Tree) (f : Nat) (q : Rat) (p : String) (dz : Rat) (n : Nat) (z : Rat) (σ : St) (h : Ready t p z σ) :
+    Ready t p (z + n * dz) (execRepG (stepT t (f + 1)) n (wallLoopBodyD q p dz) σ).1 := by
+  induction n generalizing z σ with
+  | zero =>
+    have e : z + ((0 : Nat) : Rat) * dz = z := by push_cast; ring
+    rw [e]; simpa [execRepG] using h
+  | succ n ih =>
+    rw [execRepG]
+    have h1 := wall_iterationD t f q p dz z σ h
+    have h2 := ih (z + dz) _ h1
+    have e : z + dz + (n : Rat) * dz = z + ((n + 1 : Nat) : Rat) * dz := by push_cast; ring
+    rw [e] at h2
+    exact h2
 
 end Femto.Ctl
